@@ -113,7 +113,9 @@ def bloom_roundtrip(f, cls, hf, probes, bad, tag):
                                                                    "cells_equal": cells_h == cells_b})
             except (ValueError, struct.error) as exc:
                 bad("C05", f"{tag}.channels_same_payload", {"channel": "hex", "error": str(exc)})
-        loaders = [("frombytes", lambda: cls.frombytes(blob, hash_function=hf))]
+        loaders = [("frombytes", lambda: cls.frombytes(blob, hash_function=hf)),
+                   ("frombytes(bytearray)", lambda: cls.frombytes(bytearray(blob), hash_function=hf)),
+                   ("frombytes(memoryview)", lambda: cls.frombytes(memoryview(blob), hash_function=hf))]
         if fbytes is not None:
             loaders.append(("filepath", lambda: cls(filepath=path, hash_function=hf)))
         if hx[0] == "ok":
